@@ -14,7 +14,7 @@ def hash_tree(nodes, root, tbytes):
     """the value the generated functors compute, from the specification's tree (nodes as printed by TLC)"""
     n = nodes[root]
     if n['k'] == 0:
-        return tbytes[n['sym']] & M32
+        return (tbytes[n['sym']] + 7 * n['line'] + 13 * n['col']) & M32      # the term's value and its source point
     h = (n['sym'] + 1) & M32
     for c in n['ch']:
         h = (h * 31 + hash_tree(nodes, c, tbytes)) & M32
@@ -28,21 +28,28 @@ def tu(g, cases):
          'struct H { unsigned r; template<typename... A> constexpr unsigned operator()(A... a) const { unsigned h = r + 1u; ((h = h * 31u + unsigned((unsigned char)char(a))), ...); return h; } };',
          '// nonterminal values are unsigned, term values are chars: one overload set turns both into unsigned',
          'struct HF { unsigned r; template<typename... A> constexpr unsigned operator()(A... a) const { unsigned h = r + 1u; ((h = h * 31u + conv(a)), ...); return h; }',
-         '  static constexpr unsigned conv(unsigned v) { return v; } static constexpr unsigned conv(const term_value<char>& v) { return unsigned((unsigned char)v.get_value()); } };']
+         '  static constexpr unsigned conv(unsigned v) { return v; } static constexpr unsigned conv(const term_value<char>& v) { return unsigned((unsigned char)v.get_value()) + 7u * unsigned(v.get_sp().line) + 13u * unsigned(v.get_sp().column); } };']
     for i, n in enumerate(g.nts):
         o.append('constexpr nterm<unsigned> n%d("N%d");' % (i, i))
+    # terms without precedence / associativity at odd positions are written the implicit way: a character literal in
+    # terms(...) and in the rules, no term object at all
+    tname = {}
     for i, t in enumerate(g.ts):
         b = ord(t)
-        o.append('constexpr char_term t%d(char(%d), %d, associativity(%d));' % (i, b if b < 128 else b - 256, g.tprec.get(t, 0), g.tassoc.get(t, 0)))
+        if i % 2 == 1 and g.tprec.get(t, 0) == 0 and g.tassoc.get(t, 0) == 0 and 32 < b < 127 and t not in "'\\":
+            tname[t] = "'%s'" % t
+        else:
+            tname[t] = 't%d' % i
+            o.append('constexpr char_term t%d(char(%d), %d, associativity(%d));' % (i, b if b < 128 else b - 256, g.tprec.get(t, 0), g.tassoc.get(t, 0)))
     tid = {t: i for i, t in enumerate(g.ts)}
     rl = []
     for ri, (l, rhs, prec) in enumerate(g.rules):
-        args = ', '.join('n%d' % ntid[x] if x in ntid else 't%d' % tid[x] for x in rhs)
+        args = ', '.join('n%d' % ntid[x] if x in ntid else tname[x] for x in rhs)
         r = 'n%d(%s)' % (ntid[l], args)
         if prec:
             r = '(%s[%d])' % (r, prec)
         rl.append('        %s >= HF{%du}' % (r, ri))
-    pdef = 'parser(n%d, terms(%s), nterms(%s), rules(\n%s\n    ))' % (ntid[g.root], ', '.join('t%d' % i for i in range(len(g.ts))),
+    pdef = 'parser(n%d, terms(%s), nterms(%s), rules(\n%s\n    ))' % (ntid[g.root], ', '.join(tname[t] for t in g.ts),
                                                                    ', '.join('n%d' % i for i in range(len(g.nts))), ',\n'.join(rl))
     o.append('constexpr auto p = %s;' % pdef)
     o.append('template<typename B> constexpr auto run(const B& b, bool ws, bool nl) { utils::no_stream s; return p.parse(parse_options{}.set_skip_whitespace(ws).set_skip_newline(nl), b, s); }')
@@ -85,7 +92,7 @@ def hash_lex_tree(nodes, root, inp):
     """value computed by the functors of lex_tu: leaves contribute length and content of their LEXEME"""
     n = nodes[root]
     if n['k'] == 0:
-        return hash_lexeme(inp[n['off']:n['off'] + n['len']])
+        return (hash_lexeme(inp[n['off']:n['off'] + n['len']]) + 7 * n['line'] + 13 * n['col']) & M32
     h = (n['sym'] + 1) & M32
     for c in n['ch']:
         h = (h * 31 + hash_lex_tree(nodes, c, inp)) & M32
@@ -99,21 +106,32 @@ def lex_tu(terms, shape_rules, cases):
          '// term values: string_view (string / regex terms) or char (char terms) - the LEXEME decides the value',
          'struct LF { unsigned r; template<typename... A> constexpr unsigned operator()(A... a) const { unsigned h = r + 1u; ((h = h * 31u + conv(a)), ...); return h; }',
          '  static constexpr unsigned conv(unsigned v) { return v; }',
-         '  static constexpr unsigned conv(const term_value<std::string_view>& v) { return hl(v.get_value()); }',
-         '  static constexpr unsigned conv(const term_value<char>& v) { char c = v.get_value(); return hl(std::string_view(&c, 1)); } };',
+         '  static constexpr unsigned sp(const source_point& p) { return 7u * unsigned(p.line) + 13u * unsigned(p.column); }',
+         '  static constexpr unsigned conv(const term_value<std::string_view>& v) { return hl(v.get_value()) + sp(v.get_sp()); }',
+         '  static constexpr unsigned conv(const term_value<char>& v) { char c = v.get_value(); return hl(std::string_view(&c, 1)) + sp(v.get_sp()); } };',
          'constexpr nterm<unsigned> n0("N0");']
+    tn = {}
     for i, t in enumerate(terms):
         if t[0] == 'C':
             b = t[1]
-            o.append('constexpr char_term t%d(char(%d));' % (i, b if b < 128 else b - 256))
+            if 32 < b < 127 and chr(b) not in "'\\":
+                tn[i] = "'%s'" % chr(b)                       # implicit char_term: a literal in terms(...) and in the rules
+            else:
+                tn[i] = 't%d' % i
+                o.append('constexpr char_term t%d(char(%d));' % (i, b if b < 128 else b - 256))
         elif t[0] == 'S':
-            o.append('constexpr char d%d[] = %s;' % (i, lit(t[1])))
-            o.append('constexpr string_term t%d(d%d);' % (i, i))
+            if i % 2 == 1 and all(32 < b < 127 and chr(b) not in '"\\' for b in t[1]):
+                tn[i] = '"%s"' % bytes(t[1]).decode('latin-1')    # implicit string_term
+            else:
+                tn[i] = 't%d' % i
+                o.append('constexpr char d%d[] = %s;' % (i, lit(t[1])))
+                o.append('constexpr string_term t%d(d%d);' % (i, i))
         else:
+            tn[i] = 't%d' % i
             o.append('constexpr char d%d[] = %s;' % (i, lit(t[1])))
             o.append('constexpr regex_term<d%d> t%d("rx%d");' % (i, i, i))
-    rl = ['        n0() >= LF{0u}'] + ['        n0(n0, %s) >= LF{%du}' % (', '.join('t%d' % k for k in rs), i + 1) for i, rs in enumerate(shape_rules)]
-    pdef = 'parser(n0, terms(%s), nterms(n0), rules(\n%s\n    ))' % (', '.join('t%d' % i for i in range(len(terms))), ',\n'.join(rl))
+    rl = ['        n0() >= LF{0u}'] + ['        n0(n0, %s) >= LF{%du}' % (', '.join(tn[k] for k in rs), i + 1) for i, rs in enumerate(shape_rules)]
+    pdef = 'parser(n0, terms(%s), nterms(n0), rules(\n%s\n    ))' % (', '.join(tn[i] for i in range(len(terms))), ',\n'.join(rl))
     o.append('constexpr auto p = %s;' % pdef)
     o.append('template<typename B> constexpr auto run(const B& b, bool ws, bool nl) { utils::no_stream s; return p.parse(parse_options{}.set_skip_whitespace(ws).set_skip_newline(nl), b, s); }')
     o.append('template<typename P, typename B> auto runp(const P& q, const B& b, bool ws, bool nl) { utils::no_stream s; return q.parse(parse_options{}.set_skip_whitespace(ws).set_skip_newline(nl), b, s); }')
